@@ -62,7 +62,8 @@ def run(ctx):
 
 
 def replay(ctx, path):
-    """Re-run the single history named by a replay file (sample.seed / sample.index) on $VERIF_REPO and print the diff."""
+    """Re-run the single history named by a replay file (sample.seed / sample.index) on $VERIF_REPO, minimise it, print the
+    history, the final state, the differing dataplane objects and the verdict of check_case on the minimised case."""
     obj = json.load(open(path))
     s = obj.get("case", obj.get("first_case", {})).get("sample", {})
     if "seed" not in s:
@@ -70,7 +71,8 @@ def replay(ctx, path):
     exe, log = vlib.go_build(ctx)
     if exe is None:
         print(log[-3000:]); return 1
-    lines = vlib.run_driver(ctx, exe, ["-n", s["index"] + 1, "-seed", s["seed"], "-only", s["index"]])
+    # -shrink: greedy removal of events while the class of the difference stays the same
+    lines = vlib.run_driver(ctx, exe, ["-n", s["index"] + 1, "-seed", s["seed"], "-only", s["index"], "-shrink"])
     for l in lines:
         if "sample" in l:
             print(json.dumps(l["sample"], indent=1))
